@@ -130,7 +130,7 @@ func (r *Reporter) Violation(fingerprint, what string, replay interface{}) bool 
 // committed evidence always describes /repo.
 func EvidenceDir() string {
 	if r := os.Getenv("VERIF_REPO"); r != "" && r != "/repo" {
-		return "/var/tmp/verif-evidence-alt"
+		return "/var/tmp/verif-evidence-alt/" + filepath.Base(r)
 	}
 	return filepath.Join(Root, "evidence")
 }
